@@ -9,7 +9,7 @@ RULE = ('distinct = distinct abstract design (hash of the AD); non-trivial = hie
 
 def run(rep, tier, seed):
     failed = _pv.run_suite(rep, PID, 'flat', tier)
-    rep.explanation = 'helper level (P): Definition.is_leaf() is True exactly for a definition without children and without cables, writes nothing and does not raise, for all heaps satisfying Inv -- the test by which flatten keeps an instance as a primitive or dissolves it; _bring_to_top, _redo_connections and the work-list: bounded stand-in: only leaves remain, one per leaf path with slash-joined name, same definition object and data, partition of leaf pin bits and top port bits (elaboration before vs direct reading after), Inv'
+    rep.explanation = 'helper level (P): Definition.is_leaf() (and the public Instance.is_leaf(): additionally False without a definition) is True exactly for a definition without children and without cables, writes nothing and does not raise, for all heaps satisfying Inv -- the test by which flatten keeps an instance as a primitive or dissolves it; _bring_to_top, _redo_connections and the work-list: bounded stand-in: only leaves remain, one per leaf path with slash-joined name, same definition object and data, partition of leaf pin bits and top port bits (elaboration before vs direct reading after), Inv'
     rep.assumptions = ['Tier B: everything outside the stated bounds is unexplored (DESIGN.md 8.12)',
                        'oracles (canon / elab / occurrence enumeration / Inv) read public attributes only and are calibrated against an AD-level elaborator']
     fails = _designb.run_designs(rep, PID, tier, seed, RULE, extra_bounds={'precondition': 'design made unique by uniquify(); cases where that fails are skipped and counted in bounded_stats'})
